@@ -1004,7 +1004,7 @@ Definition run_ns_body (args : list N) : list N :=
    access in force (token type), the number of (name, '~' name) pairs and the pairs, tokens.  Output: 0, rest length, the anonymous-name
    counter, item count, items: 0 access citem (as 119) | 1 nitem (as 120) | 2 access key-length key name (forward declaration) |
    7 access key name <pq> (enum with a base, declared only) | 8 access, nine flags, key, name id, anonymous, typedef, has-base [<pq>],
-   enumerators as 99, what follows as 112 | 9 access, using as 98 |
+   enumerators as 99, what follows as 112 | 9 access, using as 98 | 10 header count, per header: count, parameters as 96; then the item |
    3 access, nine flags, key, name id, anonymous, typedef, final, explicit, base count, bases as 85, member count, members,
      what follows the brace as 112 (kind, count, entries) |
    4 inline, name count, names, member count, members (namespace) | 5 alias, name count, names | 6 linkage string id, member count, members *)
@@ -1034,6 +1034,7 @@ Fixpoint enc_item (it : ClassDef.item) : list N :=
   | ClassDef.INamespace il names members => 4 :: bN il :: nlen names :: names ++ nlen members :: flat_map enc_item members
   | ClassDef.IAlias al names => 5 :: al :: nlen names :: names
   | ClassDef.IExtern l members => 6 :: l :: nlen members :: flat_map enc_item members
+  | ClassDef.ITemplate hs it => 10 :: nlen hs :: flat_map (fun h => nlen h :: flat_map enc_tparam h) hs ++ enc_item it
   end.
 Fixpoint dec_pairs (n : nat) (l : list N) : list (N * N) * list N :=
   match n, l with
